@@ -14,9 +14,11 @@ def escape_quotes_and_backslashes(s):
 
 def quote_if_needed(x):
     if isinstance(x, str):
-        if x.find("-") != -1:
+        # Anything but a plain identifier (hyphens, spaces, dots, quotes, ...)
+        # can only be written as a quoted path step.
+        if not re.match(r"^[a-zA-Z_][a-zA-Z0-9_]*$", x):
             if not x.startswith("'"):
-                return "'" + x + "'"
+                return "'" + escape_quotes_and_backslashes(x) + "'"
     return x
 
 
@@ -248,7 +250,11 @@ class _ObjectPathComponent(object):
     def create_ObjectPathComponent(component_name):
         # first case is to handle if component_name was quoted
         if isinstance(component_name, StringConstant):
-            return BasicObjectPathComponent(component_name.value, False)
+            name = component_name.value
+            if not component_name.needs_to_be_quoted:
+                # taken from pattern text: still carries the escapes
+                name = re.sub(r"\\(.)", r"\1", name)
+            return BasicObjectPathComponent(name, False)
         elif component_name.endswith("_ref"):
             return ReferenceObjectPathComponent(component_name)
         elif component_name.find("[") != -1:
